@@ -441,6 +441,19 @@ func (e *c13Env) activationSequence(base sdk.Context, nops int) {
 			tr.Count("act:gen2")
 			tr.Line("lk.activate", "2", keysField, "ok", e.state(ctx))
 		default: // first-generation begin-blocker
+			// not modelled: the emergency wind-down of RUNNING first-generation auctions (SurplusAuctionClose / DebtAuctionClose with
+			// the ESM status set close every auction of the app); such blocks are left to the second-generation sweep
+			windDown := false
+			for _, mk := range e.amapKeys(ctx) {
+				m, _ := ck.GetAuctionMappingForApp(ctx, mk[0], mk[1])
+				if st, found := app.EsmKeeper.GetESMStatus(ctx, mk[0]); found && st.Status && m.IsAuctionActive {
+					windDown = true
+				}
+			}
+			if windDown {
+				tr.Count("act:gen1-skipped-esm-wind-down")
+				continue
+			}
 			keysField := e.amapKeysField(ctx)
 			snap := e.actSnapshot(ctx)
 			auction.BeginBlocker(ctx, app.AuctionKeeper, &app.AssetKeeper, &app.CollectorKeeper, &app.EsmKeeper)
